@@ -4,6 +4,7 @@ package vh
 // A monitor over the scenario sets of C01, C02, C04, C05 and C08.
 
 import (
+	"fmt"
 	"strings"
 )
 
@@ -68,6 +69,26 @@ func c09Scenarios(tier string) []*Scenario {
 		}
 		return strings.Contains(sc.ID, "-bo1-") && !strings.Contains(sc.ID, "max2") && strings.Count(sc.ID, " ") <= 1
 	}, kmax)
+	// a daemon (the launcher has exited, the process is reported Launched) with a configured shutdown
+	// command that works, fails or hangs, and every request that stops it
+	for _, beh := range []string{"ok", "fail", "hang"} {
+		for _, op := range []string{"stop", "restart", "shutdown"} {
+			pc := PC{Name: "a", Lines: []string{"is_daemon: true", "shutdown:", "  command: \"stop-a\"", "  timeout_seconds: 2"}}
+			launchedD := func(w *World) bool { return w.lastStat["a"] == "Launched" }
+			sc := &Scenario{
+				ID:         fmt.Sprintf("c09-daemon-stopcmd-%s-%s", beh, op),
+				YAML:       projectYAML(nil, pc, PC{Name: "x"}),
+				Procs:      map[string]*ProcScript{"a": {Launches: exits(0)}, "x": {}},
+				Aux:        map[string][]string{"stop-a": {beh}},
+				K:          kmax,
+				TickBudget: 2,
+				Snap:       true,
+				API:        [][]APICall{{{Op: op, Name: "a", When: launchedD}}},
+			}
+			sc.Check = c09Check
+			scs = append(scs, sc)
+		}
+	}
 	return scs
 }
 
@@ -263,15 +284,19 @@ func c09Check(w *World) []Violation {
 			}
 		}
 		for name, st := range w.Final.States {
-			if isDaemon(name) {
-				continue
+			if isDaemon(name) && st.Status != "Terminating" && st.Status != "Restarting" {
+				continue // a daemon without a command of its own is Launched, legitimately
 			}
 			alive := w.Final.Alive[key0(name)] > 0
 			switch st.Status {
 			case "Pending", "Launching", "Restarting", "Terminating":
 				if !alive && (!anyAlive || st.Status != "Pending") {
 					// Pending with other processes alive may legitimately still be waiting
-					vs = append(vs, viol("C09", "stuck-transient:"+st.Status, "process %s stays %s although it has no command alive and nothing left to wait for (outcome %s)", name, st.Status, w.Outcome))
+					how := ""
+					if findEvent(tr, 0, func(e Event) bool { return e.Kind == "start" && e.Proc == key0(name) }) >= 0 {
+						how = ":had-a-command" // (the recorded finding is about processes that never launched one)
+					}
+					vs = append(vs, viol("C09", "stuck-transient:"+st.Status+how, "process %s stays %s although it has no command alive and nothing left to wait for (outcome %s)", name, st.Status, w.Outcome))
 				}
 			}
 		}
